@@ -302,7 +302,7 @@ def _init_ensures(c):
 
 def eng_same(a, b):
     from pyvc.engine import Engine
-    r = Engine.same(None, a, b)
+    r = Engine.same(Engine.__new__(Engine), a, b)
     return z3.BoolVal(True) if r is True else r
 
 
